@@ -1433,3 +1433,59 @@ package kcache
 /*@ iface kcache.HandlerBuilder.Create
   ensures (not (= result vnil))
 @*/
+
+/*@ func (kcache.handler).OnInitialize
+  props C16
+  at call(dyncall) assert [calls-the-registered-initialize-callback-with-the-same-list] (and (= $fn {h.onInitialize}) (= $0 {objs}))
+@*/
+/*@ func (kcache.handler).OnCreate
+  props C16
+  at call(dyncall) assert [calls-the-registered-create-callback-with-the-same-object] (and (= $fn {h.onCreate}) (= $0 {obj}))
+@*/
+/*@ func (kcache.handler).OnUpdate
+  props C16
+  at call(dyncall) assert [calls-the-registered-update-callback-with-the-same-object] (and (= $fn {h.onUpdate}) (= $0 {obj}))
+@*/
+/*@ func (kcache.handler).OnDelete
+  props C16
+  at call(dyncall) assert [calls-the-registered-delete-callback-with-the-same-object] (and (= $fn {h.onDelete}) (= $0 {obj}))
+@*/
+/*@ func (*kcache.handlerBuilder).OnInitialize
+  props C16
+  requires (not (= {hb} vnil))
+  modifies hb.onInitialize
+  ensures (and (= result {hb}) (= {hb.onInitialize} {fn}))
+@*/
+/*@ func (*kcache.handlerBuilder).OnCreate
+  props C16
+  requires (not (= {hb} vnil))
+  modifies hb.onCreate
+  ensures (and (= result {hb}) (= {hb.onCreate} {fn}))
+@*/
+/*@ func (*kcache.handlerBuilder).OnUpdate
+  props C16
+  requires (not (= {hb} vnil))
+  modifies hb.onUpdate
+  ensures (and (= result {hb}) (= {hb.onUpdate} {fn}))
+@*/
+/*@ func (*kcache.handlerBuilder).OnDelete
+  props C16
+  requires (not (= {hb} vnil))
+  modifies hb.onDelete
+  ensures (and (= result {hb}) (= {hb.onDelete} {fn}))
+@*/
+/*@ func (*kcache.handlerBuilder).Create
+  props C16
+  theory handlers
+  requires (not (= {hb} vnil))
+  ensures [handler-carries-the-four-registered-callbacks] (and (not (= result vnil))
+        (= (|kcache.handler.onInitialize| (|unbox!kcache.handler| result)) {hb.onInitialize})
+        (= (|kcache.handler.onCreate| (|unbox!kcache.handler| result)) {hb.onCreate})
+        (= (|kcache.handler.onUpdate| (|unbox!kcache.handler| result)) {hb.onUpdate})
+        (= (|kcache.handler.onDelete| (|unbox!kcache.handler| result)) {hb.onDelete}))
+@*/
+/*@ theory handlers
+;; uses kcache.handler
+(declare-fun |box!kcache.handler| (|S!kcache.handler|) V)
+(declare-fun |unbox!kcache.handler| (V) |S!kcache.handler|)
+@*/
